@@ -68,6 +68,19 @@ Proof.
   destruct (text_eqb k k'); simpl; lia.
 Qed.
 
+Lemma pairs_d_del_Forall : forall (P : text * text -> Prop) k (h : list (text * list text)),
+  Forall P (pairs_of h) -> Forall P (pairs_of (d_del k h)).
+Proof.
+  intros P k h. induction h as [|[k' v'] h IH]; intro H; cbn [d_del]; auto.
+  rewrite pairs_of_cons in H. apply Forall_app in H as [H1 H2].
+  destruct (text_eqb k k'); auto. rewrite pairs_of_cons. apply Forall_app; split; auto.
+Qed.
+Lemma pairs_d_del_len : forall k (h : list (text * list text)),
+  (length (pairs_of (d_del k h)) <= length (pairs_of h))%nat.
+Proof.
+  intros k h. induction h as [|[k' v'] h IH]; cbn [d_del]; auto.
+  destruct (text_eqb k k'); rewrite ?pairs_of_cons, ?app_length; lia.
+Qed.
 Lemma d_del_len_get : forall {V} k (d : list (text * V)) v,
   d_get k d = Some v -> (S (length (d_del k d)) <= length d)%nat.
 Proof.
